@@ -46,6 +46,16 @@ def rule_r28_notnone_transparent(ctx, prog, rule="R28"):
                     (same if callee_name(t) == name else other_t).append(callee_name(t))
         ok = len(same) == 1 and not other_t
         detail = "= T's own `%s` on the wrapped value" % name if ok else "does not forward to T::%s exactly once (calls on T: %s)" % (name, same + other_t)
+        if not ok and not same and not other_t:
+            # T's method handed as a function item to a private helper that applies it: `combine(self, rhs, Add::add)`
+            via = via_function_item(prog, b, tr, name)
+            if via is not None:
+                roles, want = via
+                ok = roles == want
+                detail = ("= T's own `%s`, applied by a private helper to the wrapped values in parameter order" % name if ok else
+                          "T::%s is applied by a helper to the parameters in the roles %s instead of %s" % (name, roles, want))
+                ctx.ob(rule, "NotNone/%s::%s/forwards" % (tr.rsplit("::", 1)[-1], name), ok, b.where(), detail, what="wrapper changes the operation")
+                continue
         if ok:
             # operand roles: the k-th operand of T's method is (the value wrapped in) the k-th parameter – `self.cmp(self)`,
             # `rhs - self` keep the method name and change the operation
@@ -71,6 +81,33 @@ def rule_r28_notnone_transparent(ctx, prog, rule="R28"):
                        "convert through i64/u64; PartialOrd defaults go through partial_cmp)" % nm, what="wrapper changes the operation")
     ctx.floor(rule, sum(len(v) for v in seen.values()), 40, "trait methods of NotNone<T>")
     return n
+
+
+def via_function_item(prog, b, tr, name):
+    """`helper(a1, a2, <T as Tr>::name)` with helper private and applying its function parameter once to (payloads of) its other
+    parameters → (roles of the applied operands in terms of b's parameters, expected [1, 2, …])"""
+    for bb, t in b.calls():
+        h = prog.local_callee_body(t)
+        if h is None or h.is_closure or h.key in prog.exported:
+            continue
+        args = [ds(a) for a in b.call_arg_exprs(bb)]
+        fpos = [i for i, a in enumerate(args) if isinstance(a, tuple) and a[0] == "fn" and a[1] == "%s::%s" % (tr, name)
+                and all(x == "T" for x in (a[2] or ()))]
+        if len(fpos) != 1:
+            continue
+        fparam = fpos[0] + 1
+        applied = []
+        for hbb, ht in h.calls():
+            if callee_name(ht) in ("call_once", "call_mut", "call"):
+                ha = [ds(a) for a in h.call_arg_exprs(hbb)]
+                if ha and isinstance(ha[0], tuple) and ha[0][:2] == ("param", fparam) and len(ha) == 2 and isinstance(ha[1], tuple) and ha[1][0] == "agg":
+                    applied.append([operand_role(prog, h, x) for x in ha[1][3]])
+        if len(applied) != 1:
+            return None
+        caller_roles = {i + 1: operand_role(prog, b, a) for i, a in enumerate(args) if i != fpos[0]}
+        roles = [caller_roles.get(r) for r in applied[0]]
+        return roles, list(range(1, len(roles) + 1))
+    return None
 
 
 def operand_role(prog, g, e, depth=0):
